@@ -25,10 +25,11 @@ import (
 //
 // Two families, chosen so that the writer's main select never has both cases ready while it is
 // evaluated (its pick would then be a random choice of the Go runtime, see part A):
-//   submit-vs-close  one submit races close while the writer is idle (one message in total: after
-//                    the writer took it the queue is empty, so `<-done` is the only ready case)
-//   callers-only     2 callers x 2 submits race each other and the writer; close runs after the
-//                    window, on an idle writer
+//
+//	submit-vs-close  one submit races close while the writer is idle (one message in total: after
+//	                 the writer took it the queue is empty, so `<-done` is the only ready case)
+//	callers-only     2 callers x 2 submits race each other and the writer; close runs after the
+//	                 window, on an idle writer
 type c27FineSc struct {
 	name     string
 	callers  int
